@@ -367,20 +367,22 @@ def execute_linting_on_paths(
     """
     files, dirs = separate_files_and_dirs(path_objs)
 
-    violations = []
-
-    # Lint files
-    if files:
+    # A single directory (the common case) is handled by the orchestrator directly
+    if len(dirs) == 1 and not files:
         if parallel:
-            violations.extend(orchestrator.lint_files_parallel(files))
-        else:
-            violations.extend(orchestrator.lint_files(files))
+            return orchestrator.lint_directory_parallel(dirs[0], recursive=recursive)
+        return orchestrator.lint_directory(dirs[0], recursive=recursive)
 
-    # Lint directories
+    # Several targets form one run: collect every file first so that cross-file
+    # rules are finalized once over all of them (not once per argument)
+    from src.orchestrator.core import _collect_files_fast
+
+    all_files = list(files)
     for dir_path in dirs:
-        if parallel:
-            violations.extend(orchestrator.lint_directory_parallel(dir_path, recursive=recursive))
-        else:
-            violations.extend(orchestrator.lint_directory(dir_path, recursive=recursive))
+        all_files.extend(_collect_files_fast(dir_path, recursive))
 
-    return violations
+    if not all_files:
+        return []
+    if parallel:
+        return orchestrator.lint_files_parallel(all_files)
+    return orchestrator.lint_files(all_files)
